@@ -53,6 +53,7 @@ T3Ctors  == {"tuple1", "list1", "attr", "idx", "call1", "cond"}
 AllBin   == {"|", "^", "&", "<<", ">>", "+", "-", "*", "/", "//", "%", "@", "**"}
 RepBin   == {"|", "^", "&", "<<", "+", "-", "*", "//", "**"}          \* every precedence level
 MinBin   == {"|", "<<", "-", "*", "**"}
+Bin7     == {"|", "^", "&", "<<", "-", "*", "**"}                      \* one operator of every precedence level
 AllBool  == {"or", "and"}
 AllCmp   == {"<", "<=", ">", ">=", "==", "!=", "in", "not in", "is", "is not"}
 RepCmp   == {"<", "==", "in", "is not"}
